@@ -23,8 +23,9 @@ ARGS = {
 }
 
 POOLS = {
-    "quick": [dict(classes=["P", "Q", "R(P)", "N", "M"], args=["none", "p1", "k1", "boom"])],
-    "thorough": [dict(classes=["P", "Q", "R(P)", "N", "M", "R2(R)"], args=["none", "p1", "p2", "k1", "boom"])],
+    # F: a class whose instances are falsy (an empty container: __len__ returns 0)
+    "quick": [dict(classes=["P", "Q", "R(P)", "N", "M", "F"], args=["none", "p1", "k1", "boom"])],
+    "thorough": [dict(classes=["P", "Q", "R(P)", "N", "M", "R2(R)", "F"], args=["none", "p1", "p2", "k1", "boom"])],
 }
 
 
@@ -96,7 +97,7 @@ class World:
         self.total_inits = 0
         world = self
 
-        def mk(name, bases=(), nested=None, swallow=None):
+        def mk(name, bases=(), nested=None, swallow=None, falsy=False):
             def __init__(self, *a, **k):
                 world.total_inits += 1
                 self.init_count = getattr(self, "init_count", 0) + 1
@@ -112,7 +113,10 @@ class World:
                         world.cls[world.names.index(swallow)]("boom")
                     except InitBoom:
                         pass
-            return S.TrueSingleton(name, bases, {"__init__": __init__})
+            body = {"__init__": __init__}
+            if falsy:
+                body["__len__"] = lambda self: 0
+            return S.TrueSingleton(name, bases, body)
 
         self.names = []
         self.cls = []
@@ -129,6 +133,8 @@ class World:
                 c = mk("N", nested="Q")
             elif n == "M":
                 c = mk("M", swallow="Q")
+            elif n == "F":
+                c = mk("F", falsy=True)
             self.names.append(n)
             self.cls.append(c)
         self.model = [None] * len(self.cls)      # instance or None
